@@ -838,6 +838,24 @@ static int vnadata_save_common(vnadata_t *vdp, FILE *fp, const char *filename,
     }
 
     /*
+     * Touchstone files hold non-negative, strictly increasing frequencies
+     * (vnadata_load refuses anything else).
+     */
+    if (vdip->vdi_filetype == VNADATA_FILETYPE_TOUCHSTONE1 ||
+	    vdip->vdi_filetype == VNADATA_FILETYPE_TOUCHSTONE2) {
+	for (int findex = 0; findex < frequencies; ++findex) {
+	    if (!(frequency_vector[findex] >= 0.0) || (findex > 0 &&
+			!(frequency_vector[findex] >
+			    frequency_vector[findex - 1]))) {
+		_vnadata_error(vdip, VNAERR_USAGE, "%s: frequencies must be "
+			"non-negative and increasing in Touchstone file types",
+			function);
+		goto out;
+	    }
+	}
+    }
+
+    /*
      * Check the compatibility of filetype, parameter type and format.
      */
     switch (vdip->vdi_filetype) {
